@@ -31,6 +31,7 @@ impl EntryIndex {
 impl ParsedTestCase {
 //@fn ParsedTestCase.check_duplicate_signals
 //@fn ParsedTestCase.build_indices
+//@fn ParsedTestCase.check_missing_signals
 }
 
 } // verus!
